@@ -3,12 +3,14 @@ import contextlib
 import io
 
 from streams import generic as g
-from streams import hb
+from streams import hb, pbt
 
 PID = "C15"
 LEVEL = "proof"
-LEAN_TARGETS = ["SyneTune.Props.C15", "SyneTune.Props.C15Sched"]
+LEAN_TARGETS = ["SyneTune.Props.C15", "SyneTune.Props.C15Sched", "SyneTune.Props.C20Pbt"]
 DRIVER = "SyneTune/Drivers/Hb.lean"
+PBT_DRIVER = "SyneTune/Drivers/Pbt.lean"
+COMPARE = {DRIVER: hb.compare, PBT_DRIVER: pbt.compare}
 THEOREMS = [
     "SyneTune.C15.rung_add_symm",
     "SyneTune.C15.cutoff_symm",
@@ -50,11 +52,17 @@ THEOREMS = [
     "SyneTune.C15Sched.pashaReport_symm",
     "SyneTune.C15Sched.taskReport_symm",
     "SyneTune.C15Sched.taskSchedule_symm",
+    # population-based training, whole scheduler, every history (Props/C20Pbt.lean)
+    "SyneTune.C20Pbt.step_symm",
+    "SyneTune.C20Pbt.run_symm",
+    "SyneTune.C20Pbt.outs_symm",
 ]
 TRUSTED = [
     "hand-written models lean/SyneTune/Model/{Rung,HB}.lean tied to /repo by the hb correspondence stream (both runs of every pair)",
-    "schedulers without a Lean model (synchronous Hyperband, DEHB, PBT, median rule, MOASHA, regularized evolution, random/grid) "
+    "schedulers without a Lean model (synchronous Hyperband, DEHB, median rule, MOASHA, regularized evolution, random/grid) "
     "are decided by the paired runs only (differential execution of the real code)",
+    "PBT: model lean/SyneTune/Model/PBT.lean tied to /repo by the pbt stream (harness/streams/pbt.py; both runs of a pair, the "
+    "min run carries the model lines), in addition to the paired runs of the generic stream",
 ]
 ASSUMPTIONS = [
     "metric tables in general position on a 1/1024 grid (negation is exact in floating point); a separate tie stream",
@@ -135,6 +143,9 @@ def gen_cases(rng, tier):
         yield {"hb": True, "ctor": c, "seed": rng.randrange(10 ** 9), "n_workers": rng.randint(1, 5),
                "max_events": 80 if tier == "quick" else 200, "style": rng.choice(["grid", "grid", "ties"]),
                "checkpointing": rng.random() < 0.5, "p_fail": rng.choice([0, 0.03])}
+    # PBT pairs with model lines (appended last: the cases above stay the same for a seed)
+    for _ in range(25 if tier == "quick" else 300):
+        yield dict(pbt.gen_case(rng, tier), pbt=True, twin=True)
 
 
 def corpus():
@@ -201,6 +212,13 @@ def run_status(spec):
 def run_impl(spec):
     if spec.get("status"):
         return run_status(spec)
+    if spec.get("pbt"):
+        r = pbt.run_impl(spec)
+        r["driver"] = PBT_DRIVER
+        r["meta"]["hist"] = {"pbt:" + k: v for k, v in r["meta"]["hist"].items()}
+        r["meta"]["hist"]["pair:pbt-model"] = 1
+        r["meta"]["nontrivial"] = pbt.nontrivial(r)
+        return r
     if spec.get("hb"):
         # two model-checked runs; the pair is compared on decisions / suggestions / rung order
         a = hb.run_scenario(dict(spec, negate=False))
@@ -210,10 +228,19 @@ def run_impl(spec):
         ea = [_proj(e) for e in a["events"]]
         eb = [_proj(e) for e in b["events"]]
         nt = any(e["ev"] == "resume" or (e["ev"] == "result" and e["decision"] != "CONTINUE") for e in a["events"])
+        # PASHA estimates its epsilon from pairs of trials by `p1 > p2` on their values at the same level: two trials with the
+        # SAME value at the same level are a table that is not in general position (the property's own exclusion)
+        first_tie, seen_vals = None, {}
+        for i, e in enumerate(a["events"]):
+            if e["ev"] == "result":
+                key = (e["resource"], e["metric"])
+                if seen_vals.setdefault(key, e["trial"]) != e["trial"]:
+                    first_tie = i
+                    break
         # the pair is judged in post_case, where the model's forced/free classification is known
         return {"lines": a["lines"] + b["lines"], "monitor": [],
                 "meta": {"hist": {"pair:hb-" + spec["ctor"]["type"]: 1}, "nontrivial": nt,
-                         "pair": [ea, eb], "nlines": [len(a["lines"]), len(b["lines"])]}}
+                         "pair": [ea, eb], "nlines": [len(a["lines"]), len(b["lines"])], "first_tie": first_tie}}
     name = spec["name"]
     runs = []
     for which in ((0, 1, 2) if name == "moasha" else (0, 1)):
@@ -262,6 +289,8 @@ def post_case(trace, mo):
     if free_upto(0, na) or free_upto(na, nb):
         return []          # divergence after a decision within round-off: allowed by the property
     typ = trace["spec"]["ctor"]["type"]
+    if typ == "pasha" and meta.get("first_tie") is not None and meta["first_tie"] < k:
+        return []          # two trials reported the same value at the same level before: not in general position
     return [{"signature": f"c15:pair-diverges:hb-{typ}",
              "what": f"mode=min on f and mode=max on -f diverge at event {k} with no round-off decision before: "
                      f"{ea[k] if k < len(ea) else None} vs {eb[k] if k < len(eb) else None}", "detail": {"event": k}}]
